@@ -917,6 +917,12 @@ mut("C14", "while-ignores-break", "leave-on-break", "break does not leave while"
 mut("C14", "new-construct-unhandled", "R14-2", "grammar gains a construct the interpreter ignores",
     (G, "EXP_BODY = { (CMD | EXP_IF | EXP_WHILE | EXP_FOR)+ }", "EXP_UNTIL = { KW_WHILE ~ TEST ~ NEWLINE }\nEXP_BODY = { (CMD | EXP_IF | EXP_WHILE | EXP_FOR | EXP_UNTIL)+ }"))
 
+ref("brace-scan-enumerate-then-filter", ["C01", "C05", "C12", "C13"],
+    "expand_brace scans tokens.iter().enumerate().filter(untagged): the tag test sits in the filter closure, positions are exact",
+    (S, '    let mut idx: usize = 0;\n    let mut buff = Vec::new();\n    for (sep, token) in tokens.iter() {\n        if !sep.is_empty() || !need_expand_brace(token) {\n            idx += 1;\n            continue;\n        }\n\n        let mut result: Vec<String> = Vec::new();\n        let items = brace_getitem(token, 0);\n        for x in items.0 {\n            result.push(x.clone());\n        }\n        buff.push((idx, result));\n        idx += 1;\n    }\n', '    // quoted tokens are never brace-expanded\n    let unquoted = tokens.iter().enumerate().filter(|(_, (sep, _))| sep.is_empty());\n    let mut buff: Vec<(usize, Vec<String>)> = Vec::new();\n    for (idx, (_, token)) in unquoted {\n        if need_expand_brace(token) {\n            let (items, _) = brace_getitem(token, 0);\n            buff.push((idx, items));\n        }\n    }\n'))
+mut("C12", "brace-scan-filter-then-enumerate", "R12-7|shell::expand_brace|enumerate-position",
+    "enumerate() after the tag filter: the recorded position counts unquoted tokens only",
+    (S, '    let mut idx: usize = 0;\n    let mut buff = Vec::new();\n    for (sep, token) in tokens.iter() {\n        if !sep.is_empty() || !need_expand_brace(token) {\n            idx += 1;\n            continue;\n        }\n\n        let mut result: Vec<String> = Vec::new();\n        let items = brace_getitem(token, 0);\n        for x in items.0 {\n            result.push(x.clone());\n        }\n        buff.push((idx, result));\n        idx += 1;\n    }\n', '    // quoted tokens are never brace-expanded\n    let unquoted = tokens.iter().filter(|(sep, _)| sep.is_empty());\n    let mut buff: Vec<(usize, Vec<String>)> = Vec::new();\n    for (idx, (_, token)) in unquoted.enumerate() {\n        if need_expand_brace(token) {\n            let (items, _) = brace_getitem(token, 0);\n            buff.push((idx, items));\n        }\n    }\n'))
 # ------------------------------------------------------------------ C15
 mut("C15", "func-status-zero", "R15-1|core::try_run_func", "function status always 0",
     (C, "        cr.status = status;\n", ""))
